@@ -346,7 +346,9 @@ Proof.
   intros cfg p m s Hc Hf [Hp2 Hp7] Hp6. unfold ppc_ok.
   destruct p; cbn; rewrite ?Hc; try congruence.
   - repeat split; try discriminate.
-  - destruct (filt s); repeat split; try discriminate.
+  - destruct (filt s) eqn:Ef; [|repeat split; discriminate].
+    destruct (matches n m) eqn:Em; repeat split; try discriminate.
+    intros _. eapply matches_isn; eauto.
   - destruct (filt s) eqn:Ef; [|apply Hp6; auto].
     destruct (matches n m) eqn:Em; repeat split; try discriminate.
     intros _. eapply matches_isn; eauto.
@@ -1350,4 +1352,54 @@ Proof.
   - repeat constructor; cbn; auto; eexists; reflexivity.
   - repeat constructor.
   - vm_compute. split; reflexivity.
+Qed.
+
+(** ---- put_message reads the filter once: no reset of the filter can kill a thread ----------- *)
+
+Lemma pstep_no_p6 : forall cfg p m s,
+  p <> P6 ->
+  match snd (pstep cfg p m s) with
+  | PNext p' => p' <> P6
+  | PFin => True
+  | PCrash => False
+  end.
+Proof.
+  intros cfg p m s Hp. destruct p; cbn; try discriminate; try congruence; auto.
+  - destruct (has_conn cfg); discriminate.
+  - destruct (filt s); [destruct (matches n m)|]; discriminate.
+Qed.
+
+(** reader_never_dies: for EVERY configuration (connector or not, native or virtual with an
+    asynchronous producer), every script -- including send_message without filter on a virtual
+    device, which stores None into the filter -- and every schedule, the reader thread is never
+    at a second filter load and never dies. *)
+Lemma reader_never_dies :
+  forall cfg script sp l0 sched,
+    let s := run cfg sched (init cfg script sp l0) in
+    r_pc s <> RD_Dead /\ (forall m, r_pc s <> RD_P P6 m).
+Proof.
+  intros cfg script sp l0 sched s.
+  set (I := fun s => r_pc s <> RD_Dead /\ (forall m, r_pc s <> RD_P P6 m)).
+  assert (H : I s).
+  { apply run_invariant.
+    - intros a s0 (H1 & H2). destruct a as [[]| |]; cbn [act step].
+      + destruct (step_A_frame_R cfg s0) as (E & _). unfold I. rewrite E. auto.
+      + destruct (step_W_frame_R cfg s0) as (E & _). unfold I. rewrite E. auto.
+      + unfold I, step_R. destruct (r_pc s0) as [|p m|] eqn:Er; [| |congruence].
+        * destruct (wire s0); [rewrite Er; split; [discriminate|intros; discriminate]|]. cbn.
+          pose proof (r_next_spec c) as X. destruct (fst (r_next c)); try contradiction.
+          -- split; [discriminate|intros; discriminate].
+          -- destruct X as (Ep & _). subst p. split; [discriminate|intros m1 E; inversion E].
+        * assert (Hp : p <> P6) by (intro Ep; subst p; apply (H2 m); reflexivity).
+          pose proof (pstep_no_p6 cfg p m s0 Hp) as X.
+          destruct (snd (pstep cfg p m s0)); try contradiction; cbn.
+          -- split; [discriminate|]. intros m1 E. inversion E; subst. apply X; reflexivity.
+          -- pose proof (r_next_spec (r_buf s0)) as Y. destruct (fst (r_next (r_buf s0))); try contradiction.
+             ++ split; [discriminate|intros; discriminate].
+             ++ destruct Y as (Ep & _). subst p0. split; [discriminate|intros m1 E; inversion E].
+      + destruct (step_C_frame_R cfg s0) as (E & _). unfold I. rewrite E. auto.
+      + unfold I. cbn. auto.
+      + unfold I, emit. destruct (spont s0); cbn; auto.
+    - unfold I, init. cbn. split; [discriminate|intros; discriminate]. }
+  exact H.
 Qed.
